@@ -353,6 +353,10 @@ SAN_ENV = {"ASAN_OPTIONS": "detect_leaks=0:abort_on_error=0:allocator_may_return
 
 
 def run_model(exe, mode, lines, timeout=1800):
+    if os.environ.get("VERIF_DEBUG_MODEL"):
+        run_model.n = getattr(run_model, "n", 0) + 1
+        with open("%s.%d" % (os.environ["VERIF_DEBUG_MODEL"], run_model.n), "w") as fh:
+            fh.write(exe + " " + mode + "\n" + "\n".join(lines) + "\n")
     p = subprocess.run([exe, mode], input="\n".join(lines) + "\n", stdout=subprocess.PIPE, stderr=subprocess.PIPE,
                        text=True, timeout=timeout, preexec_fn=_limits)
     out = p.stdout.split("\n")
@@ -361,6 +365,22 @@ def run_model(exe, mode, lines, timeout=1800):
     if p.returncode != 0 or len(out) != len(lines):
         raise BuildError("model driver failed (rc=%s, %d/%d lines): %s" % (p.returncode, len(out), len(lines), p.stderr[-2000:]))
     return out
+
+
+def run_spec(exe, lines):
+    """The model-free oracle on (scenario => observation) lines.  The observations come from the implementation under test, which may
+    be arbitrarily wrong: if the extracted oracle crashes or does not answer in time on some line, that line gets "T" (it cannot be
+    judged, which the caller reports) and the others are still judged -- the check itself never hangs or dies on it."""
+    def go(ls, depth):
+        budget = 20.0 + 0.05 * len(ls) if depth else 120.0 + 0.05 * len(ls)
+        try:
+            return run_model(exe, "spec", ls, timeout=budget)
+        except (subprocess.TimeoutExpired, BuildError):
+            if len(ls) == 1:
+                return ["T"]
+            m = len(ls) // 2
+            return go(ls[:m], depth + 1) + go(ls[m:], depth + 1)
+    return go(list(lines), 0) if lines else []
 
 
 def run_impl(exe, lines, per_timeout=20.0, args=(), env_extra=None, max_restarts=40):
@@ -456,7 +476,10 @@ def main_check(P, argv):
         ev["wall_s"] = round(time.time() - t0, 2)
         ev["violations"] = len(viol)
         if not a.replay:
-            with open(os.path.join(ROOT, "evidence", prop + ".json"), "w") as f:
+            # evidence/ describes /repo itself; a run against a scratch tree (VERIF_REPO, used to try seeded changes) writes elsewhere
+            edir = os.path.join(ROOT, "evidence") if os.path.realpath(REPO) == "/repo" else os.path.join(BUILD, "evidence_scratch")
+            os.makedirs(edir, exist_ok=True)
+            with open(os.path.join(edir, prop + ".json"), "w") as f:
                 json.dump(ev, f, indent=1)
         for k in known_hits:
             print("KNOWN-FINDING: property=%s %s" % (prop, k))
@@ -621,7 +644,7 @@ def decide(P, prop, model, exes, scns, ev, write_replay, viol, known_hits, broke
         # model-free oracle on the implementation's observations
         crashed = [o.startswith("!") for o in iobs]
         if model:
-            sp = run_model(model, "spec", [s + " => " + (o if not c else "!") for s, o, c in zip(scns, iobs, crashed)])
+            sp = run_spec(model, [s + " => " + (o if not c else "!") for s, o, c in zip(scns, iobs, crashed)])
         else:
             sp = ["1"] * len(scns)
         for k, (s, o) in enumerate(zip(scns, iobs)):
@@ -634,6 +657,8 @@ def decide(P, prop, model, exes, scns, ev, write_replay, viol, known_hits, broke
             if crashed[k]:
                 if getattr(P, "CRASH_IS_VIOLATION", True):
                     bad = "implementation crashed/hung/sanitizer report: " + o
+            elif sp[k] == "T":
+                bad = "the extracted model-free oracle could not evaluate the implementation's observation (no answer within its time limit)"
             elif sp[k] != "1":
                 bad = "spec false on the implementation's observation"
             elif hasattr(P, "extra_oracle"):
@@ -697,7 +722,7 @@ def shrink(P, model, exe, s, o, fl, per_timeout, budget=300, wall=150.0):
             if io.startswith("!"):
                 bad = curo.startswith("!")
             else:
-                bad = (not curo.startswith("!")) and run_model(model, "spec", [c + " => " + io])[0] != "1"
+                bad = (not curo.startswith("!")) and run_spec(model, [c + " => " + io])[0] not in ("1", "T")
             if bad:
                 cur, curo = c, io
                 improved = True
